@@ -853,6 +853,70 @@ Proof.
     rewrite classify_service_suffix. rewrite (omapM_build (ds_methods s) Hs). cbn [obind].
     rewrite IH. cbn [sa_services sa_topics]. rewrite <- app_assoc. reflexivity.
 Qed.
+(* topics: <Name>Topic services whose methods take <M>Message and return google.protobuf.Empty *)
+Record decl_topic := { dt_name : str; dt_msgs : list str }.
+
+Definition compile_topic_method (m : str) : meth_desc :=
+  {| md_name := m; md_in_same_pkg := true; md_in_name := m ++ bytes_of "Message";
+     md_out_name := bytes_of "Empty"; md_out_full := EMPTY; md_http := None; md_in_fields := [] |}.
+
+Definition compile_topic (t : decl_topic) : svc_desc :=
+  {| sd_sub := bytes_of "topic"; sd_name := dt_name t ++ bytes_of "Topic";
+     sd_methods := map compile_topic_method (dt_msgs t) |}.
+
+Definition declared_topic (t : decl_topic) : str * list str := (dt_name t ++ bytes_of "Topic", dt_msgs t).
+
+Lemma build_topic_method_declared m : build_topic_method (compile_topic_method m) = Ok m.
+Proof.
+  unfold build_topic_method, compile_topic_method. cbn [md_in_same_pkg md_in_name md_name md_out_full].
+  rewrite !str_eqb_refl. reflexivity.
+Qed.
+
+Lemma omapM_build_topic ms : omapM build_topic_method (map compile_topic_method ms) = Ok ms.
+Proof.
+  induction ms as [|m r IH]; [reflexivity|].
+  cbn [map omapM]. rewrite build_topic_method_declared. cbn [obind]. rewrite IH. reflexivity.
+Qed.
+
+(* addStructure on the services followed by the topics of a package *)
+Theorem add_structure_topics tops acc :
+  add_structure (map compile_topic tops) acc =
+  Ok {| sa_services := sa_services acc; sa_topics := sa_topics acc ++ map declared_topic tops |}.
+Proof.
+  revert acc. induction tops as [|t r IH]; intro acc.
+  - cbn [map add_structure]. rewrite app_nil_r. destruct acc; reflexivity.
+  - cbn [map]. change (add_structure (compile_topic t :: map compile_topic r) acc) with
+      (match classify_service (sd_name (compile_topic t)) with
+       | KService =>
+          obind (omapM build_method (sd_methods (compile_topic t))) (fun ms =>
+            add_structure (map compile_topic r)
+              {| sa_services := sa_services acc ++ [{| ss_sub := sd_sub (compile_topic t); ss_name := sd_name (compile_topic t); ss_methods := ms |}];
+                 sa_topics := sa_topics acc |})
+       | KIgnored => add_structure (map compile_topic r) acc
+       | KTopic =>
+          obind (omapM build_topic_method (sd_methods (compile_topic t))) (fun ms =>
+            add_structure (map compile_topic r)
+              {| sa_services := sa_services acc; sa_topics := sa_topics acc ++ [(sd_name (compile_topic t), ms)] |})
+       | KUnsupported => Err "unsupported service name"
+       end).
+    cbn [compile_topic sd_name sd_methods sd_sub].
+    rewrite classify_topic_suffix. rewrite omapM_build_topic. cbn [obind].
+    rewrite IH. cbn [sa_services sa_topics]. rewrite <- app_assoc. reflexivity.
+Qed.
+
+Lemma add_structure_app l1 : forall l2 acc mid,
+  add_structure l1 acc = Ok mid -> add_structure (l1 ++ l2) acc = add_structure l2 mid.
+Proof.
+  induction l1 as [|s r IH]; intros l2 acc mid H.
+  - cbn in H. injection H as <-. reflexivity.
+  - cbn [app add_structure] in *. destruct (classify_service (sd_name s)).
+    + destruct (omapM build_method (sd_methods s)) as [ms| | |]; cbn [obind] in *; try discriminate.
+      apply IH. exact H.
+    + apply IH. exact H.
+    + destruct (omapM build_topic_method (sd_methods s)) as [ms| | |]; cbn [obind] in *; try discriminate.
+      apply IH. exact H.
+    + discriminate.
+Qed.
 End Declared.
 
 (* ---------- a declared package and what the compiler emits for it ---------------- *)
@@ -872,7 +936,8 @@ Definition df_decl (d : decl_full) : decl_method :=
 Record decl_package := {
   dp_pkg : str;
   dp_services : list (str * list decl_full);   (* service name without the Service suffix *)
-  dp_schemas : env                              (* the declared objects, oneofs and enums *)
+  dp_topics : list decl_topic;                  (* topic name without the Topic suffix, message names *)
+  dp_schemas : env                              (* the declared objects, oneofs and enums (and topic messages) *)
 }.
 
 Definition SERVICE : str := bytes_of "service".
@@ -889,7 +954,8 @@ Definition all_methods (P : decl_package) : list decl_full := flat_map snd (dp_s
 Definition compile_image (P : decl_package) : image :=
   {| im_pkg := dp_pkg P;
      im_services := map (fun s => compile_service to_snake {| ds_name := fst s; ds_methods := map df_decl (snd s) |})
-                        (dp_services P);
+                        (dp_services P)
+                    ++ map compile_topic (dp_topics P);
      im_schemas := flat_map (method_schemas (dp_pkg P)) (all_methods P) ++ dp_schemas P;
      im_roots := [] |}.
 
